@@ -30,6 +30,7 @@ import (
 	"github.com/99designs/gqlgen/graphql/handler"
 	"github.com/99designs/gqlgen/graphql/handler/lru"
 	"github.com/99designs/gqlgen/graphql/handler/transport"
+	"github.com/gorilla/websocket"
 	"github.com/vektah/gqlparser/v2/ast"
 
 	"verif/internal/ev"
@@ -101,6 +102,7 @@ type config struct {
 	Cache             string  `json:"cache"`
 	DisableSuggestion bool    `json:"disable_suggestion"`
 	HTTP              bool    `json:"http"`
+	WS                bool    `json:"websocket"` // with HTTP: requests travel as graphql-transport-ws subscribe messages
 }
 
 type reqCtx struct {
@@ -114,7 +116,8 @@ type server struct {
 	exec     *executor.Executor
 	hs       *handler.Server
 	cache    *watchCache
-	reg      sync.Map // request id -> *reqCtx (HTTP path)
+	ts       *httptest.Server // websocket mode
+	reg      sync.Map         // request id -> *reqCtx (HTTP path)
 	recovers atomic.Int64
 	nextID   atomic.Int64
 }
@@ -140,6 +143,10 @@ func newServer(cfg config) *server {
 	}
 	if cfg.HTTP {
 		s.hs = handler.New(s.env.ES)
+		if cfg.WS {
+			s.hs.AddTransport(transport.Websocket{Upgrader: websocket.Upgrader{CheckOrigin: func(*http.Request) bool { return true }}})
+			s.ts = httptest.NewServer(s)
+		}
 		s.hs.AddTransport(transport.POST{})
 		s.hs.SetQueryCache(s.cache)
 		s.hs.SetDisableSuggestion(cfg.DisableSuggestion)
@@ -202,23 +209,27 @@ func (s *server) run(st step, plan univ.Plan) *outcome {
 		if vars != nil {
 			body["variables"] = st.V.Vars
 		}
-		b, _ := json.Marshal(body)
-		r := httptest.NewRequest("POST", "/query", strings.NewReader(string(b)))
-		r.Header.Set("Content-Type", "application/json")
-		r.Header.Set("X-Verif-Req", id)
-		w := httptest.NewRecorder()
-		s.ServeHTTP(w, r)
-		out.status = w.Code
-		out.body = w.Body.String()
-		if v, err := sjson.Parse(w.Body.Bytes()); err == nil && v.Kind == sjson.Object {
-			if d := v.Get("data"); d != nil && d.Kind != sjson.Null {
-				out.hasData = true
-			}
-			if e := v.Get("errors"); e != nil && e.Kind == sjson.Array && len(e.Arr) > 0 {
-				out.hasErrors = true
-			}
+		if s.cfg.WS {
+			s.runWS(id, body, out)
 		} else {
-			out.panicked = "response body is not a JSON object: " + out.body
+			b, _ := json.Marshal(body)
+			r := httptest.NewRequest("POST", "/query", strings.NewReader(string(b)))
+			r.Header.Set("Content-Type", "application/json")
+			r.Header.Set("X-Verif-Req", id)
+			w := httptest.NewRecorder()
+			s.ServeHTTP(w, r)
+			out.status = w.Code
+			out.body = w.Body.String()
+			if v, err := sjson.Parse(w.Body.Bytes()); err == nil && v.Kind == sjson.Object {
+				if d := v.Get("data"); d != nil && d.Kind != sjson.Null {
+					out.hasData = true
+				}
+				if e := v.Get("errors"); e != nil && e.Kind == sjson.Array && len(e.Arr) > 0 {
+					out.hasErrors = true
+				}
+			} else {
+				out.panicked = "response body is not a JSON object: " + out.body
+			}
 		}
 		out.events = l.snapshot()
 		out.univ = run.Events()
@@ -267,6 +278,59 @@ func (s *server) run(st step, plan univ.Plan) *outcome {
 	return out
 }
 
+// runWS sends the operation as one subscribe message on a fresh graphql-transport-ws connection
+// and folds the frames of that operation into the outcome.
+func (s *server) runWS(id string, payload map[string]any, out *outcome) {
+	d := websocket.Dialer{Subprotocols: []string{"graphql-transport-ws"}}
+	c, _, err := d.Dial("ws"+strings.TrimPrefix(s.ts.URL, "http"), http.Header{"X-Verif-Req": []string{id}})
+	if err != nil {
+		out.panicked = "websocket dial: " + err.Error()
+		return
+	}
+	defer c.Close()
+	c.WriteJSON(map[string]any{"type": "connection_init"})
+	c.WriteJSON(map[string]any{"type": "subscribe", "id": "1", "payload": payload})
+	c.SetReadDeadline(time.Now().Add(20 * time.Second))
+	var frames []string
+	for i := 0; i < 64; i++ {
+		_, raw, err := c.ReadMessage()
+		if err != nil {
+			frames = append(frames, "read: "+err.Error())
+			break
+		}
+		frames = append(frames, string(raw))
+		v, perr := sjson.Parse(raw)
+		if perr != nil || v.Kind != sjson.Object || v.Get("type") == nil {
+			out.panicked = "websocket frame is not a JSON message: " + string(raw)
+			break
+		}
+		typ := v.Get("type").Str
+		if v.Get("id") == nil || v.Get("id").Str != "1" {
+			continue
+		}
+		if typ == "error" {
+			out.hasErrors = true
+		}
+		if typ == "next" {
+			if p := v.Get("payload"); p != nil && p.Kind == sjson.Object {
+				if dd := p.Get("data"); dd != nil && dd.Kind != sjson.Null {
+					out.hasData = true
+				}
+				if e := p.Get("errors"); e != nil && e.Kind == sjson.Array && len(e.Arr) > 0 {
+					out.hasErrors = true
+				}
+			}
+		}
+		if typ == "complete" {
+			break
+		}
+	}
+	out.status = 200
+	out.body = strings.Join(frames, "\n")
+	// the operation goroutine may still be winding down after its complete frame
+	c.WriteMessage(websocket.CloseMessage, websocket.FormatCloseMessage(websocket.CloseNormalClosure, ""))
+}
+
 // agg batches counters of one history so 16 clients do not serialise on the reporter's mutex.
 type agg struct {
 	counts   map[string]int64
@@ -300,7 +364,7 @@ func (a *agg) flush() {
 
 // judge applies the oracle to one request.
 func (s *server) judge(ag *agg, st step, o *outcome, hist *history, idx int, mode string) {
-	x := expect{exts: s.cfg.Exts, rejectStage: st.V.Stage, fields: st.V.fields, rootFields: st.V.rootFields}
+	x := expect{exts: s.cfg.Exts, rejectStage: st.V.Stage, fields: st.V.fields, rootFields: st.V.rootFields, streamed: s.cfg.WS}
 	if st.RejectKind != "" {
 		x.rejectStage, x.rejectExt = st.RejectKind, st.RejectExt
 	}
@@ -576,7 +640,7 @@ func main() {
 		"refusal is known by construction: invalid variants are named mutations of valid opgen operations; each construction is vetted once with gqlparser on a quiescent process and dropped (counted) if it did not have the intended effect",
 		"expected interception counts come from the reference executor (internal/ref): one field interception per executed field node (every response key except __typename, also struct-backed fields: the generated code calls ResolverMiddleware for every field and leaves IsMethod/IsResolver filtering to the extension), minus fields whose arguments fail coercion (gqlgen refuses those before the field hook; none occurred unless counters say so); one root-field interception per root field",
 		"'no data' for a refused request means the data member is absent or null (graphql.Response always serialises the member)",
-		"the response function is called once per operation, as the single-payload transports (POST/GET) do; subscriptions and @defer are not part of this check (C11/C13)",
+		"the response function is called once per operation, as the single-payload transports (POST/GET) do; in the websocket stage the transport calls it until it answers nil, so one more round of response interceptors (for the end-of-stream nil) is expected there; subscriptions and @defer are not part of this check (C11/C13)",
 		"argument / input-field directives (@chk) run during argument coercion, i.e. outside the field interceptor; operation directives run outside field interceptors: only their presence on refused requests is judged",
 		"the rule-swap window stage needs the guarded hook graphql/verifhook (build tag verif) and two executors in one process, one with SetDisableSuggestion(true)",
 	}
@@ -690,6 +754,26 @@ func main() {
 	}
 
 	lap("post_sequential")
+
+	// 4b. sequential histories as websocket subscribe messages (the transport has its own
+	// refuse-or-dispatch decision)
+	nWS := ev.Pick(6, 40)
+	for c := 0; c < nWS; c++ {
+		cfg := config{Probe: probes[c%len(probes)], Cache: caches[(c+2)%len(caches)], DisableSuggestion: c%2 == 1, HTTP: true, WS: true, Exts: randExts(r)}
+		if c == 0 {
+			cfg.Exts = extList{63, 63}
+		}
+		s := newServer(cfg)
+		ks := famByProbe[cfg.Probe]
+		for hI := 0; hI < 2; hI++ {
+			k := ks[r.Intn(len(ks))]
+			runHistory(s, makeHistory(cfg.Probe, k, families[k], cfg.Exts, r.Int63()), "websocket-sequential")
+		}
+		s.harvest()
+		s.ts.Close()
+		rep.Distinct("extension_lists", cfg.Exts.String())
+	}
+	lap("websocket_sequential")
 
 	// 5. 16 concurrent clients on one server (no MapCache: documented as not safe for that)
 	concCaches := []string{"none", "lru1", "lru2", "lru1000"}
